@@ -71,12 +71,13 @@ def rand_perm(rng, n):
     return p
 
 
-def gen_cases(rng, count):
+def gen_cases(rng, count, big=False):
     cases = []
     for _ in range(count):
         k = rng.random()
+        mx = rng.choice([12, 24, 40]) if big else 12
         if k < 0.22:
-            n_img, adj = gen_graph(rng)
+            n_img, adj = gen_graph(rng, max_n=mx)
             cases.append("render %d %s" % (rng.randrange(8), fmt_graph(n_img, adj)))
         elif k < 0.38:
             a_img, a = gen_graph(rng, max_n=8)
@@ -112,13 +113,13 @@ def gen_cases(rng, count):
             else:
                 cases.append("inverse %s" % fmt_list(rand_perm(rng, n)))
         elif k < 0.82:
-            n_img, adj = gen_graph(rng, square=True, symmetric=True, max_n=14)
+            n_img, adj = gen_graph(rng, square=True, symmetric=True, max_n=mx + 2)
             if rng.random() < 0.5:
                 cases.append("color %s" % fmt_graph(n_img, adj))
             else:
                 cases.append("colororder %s %s" % (fmt_graph(n_img, adj), fmt_list(rand_perm(rng, len(adj)))))
         else:
-            n_img, adj = gen_graph(rng, square=True, symmetric=True, max_n=14, multi=True)
+            n_img, adj = gen_graph(rng, square=True, symmetric=True, max_n=mx + 2, multi=True)
             if len(adj) == 0:
                 n_img, adj = 1, [[]]
             cases.append("cm %d %d %d %s" % (rng.randrange(2), rng.randrange(3), rng.randrange(3), fmt_graph(n_img, adj)))
@@ -418,7 +419,7 @@ def main(argv):
     if args.replay:
         cases = [json.load(open(args.replay))["input"]]
     else:
-        cases = CORPUS + gen_cases(rng, 3000 if args.tier == "quick" else 60000)
+        cases = CORPUS + (gen_cases(rng, 3000) if args.tier == "quick" else gen_cases(rng, 150000, big=True))
     st = vlib.Stream("adjacency", cases, [binary], vlib.driver_cmd(PROP), oracle=oracle, nontrivial=nontrivial,
                      describe=describe, signature=signature)
     stats_rule = ("random graphs (domain/image 0..14, empty lists, duplicates, isolated nodes, several components), "
